@@ -251,7 +251,7 @@ func (e *bgvEnv) subjects() (subs []*subject) {
 			subs = append(subs, &subject{Ctor: "bgv.Evaluator.ShallowCopy", Cfg: tag + "/" + mode + "/" + kc, Safe: true, Scratch: bgvEvalScratch,
 				Make: mk, Copy: func(o any) any { return o.(*bgv.Evaluator).ShallowCopy() }, Work: e.evalWork})
 			subs = append(subs, &subject{Ctor: "bgv.Evaluator.WithKey", Cfg: tag + "/" + mode + "/" + kc + "->full2", Scratch: bgvEvalScratch,
-				Rebound: []string{"*.Evaluator*.EvaluationKeySet", "*.Evaluator*.automorphismIndex", "*.Evaluator"},
+				Rebound: []string{"*.Evaluator*.EvaluationKeySet", "*.Evaluator*.automorphismIndex"},
 				Make:    mk, Copy: func(o any) any { return o.(*bgv.Evaluator).WithKey(e.evk2) }, Work: e.evalWork,
 				Ref: func() outs { return e.evalWork(bgv.NewEvaluator(e.p, e.evk2, inv)) }})
 		}
@@ -457,8 +457,10 @@ func (e *ckksEnv) evalWork(x any) (o outs) {
 		rec("Rescale", ev.Rescale(out, r), r)
 	}
 	acc := nc(2)
+	acc.Scale = e.ctA.Scale.Mul(e.ctB.Scale)
 	rec("MulThenAdd/ct", ev.MulThenAdd(e.ctA, e.ctB, acc), acc)
 	acc = nc(1)
+	acc.Scale = e.ctA.Scale.Mul(e.ctB.Scale)
 	rec("MulRelinThenAdd/ct", ev.MulRelinThenAdd(e.ctA, e.ctB, acc), acc)
 	out = nc(1)
 	rec("Rotate", ev.Rotate(e.ctA, 1, out), out)
@@ -511,7 +513,7 @@ func (e *ckksEnv) subjects() (subs []*subject) {
 		subs = append(subs, &subject{Ctor: "ckks.Evaluator.ShallowCopy", Cfg: tag + "/" + kc, Safe: true, Scratch: ckksEvalScratch,
 			Make: mk, Copy: func(o any) any { return o.(*ckks.Evaluator).ShallowCopy() }, Work: e.evalWork})
 		subs = append(subs, &subject{Ctor: "ckks.Evaluator.WithKey", Cfg: tag + "/" + kc + "->full2", Scratch: ckksEvalScratch,
-			Rebound: []string{"*.Evaluator"},
+			Rebound: []string{"*.Evaluator*.EvaluationKeySet", "*.Evaluator*.automorphismIndex"},
 			Make:    mk, Copy: func(o any) any { return o.(*ckks.Evaluator).WithKey(e.evk2) }, Work: e.evalWork,
 			Ref: func() outs { return e.evalWork(ckks.NewEvaluator(e.p, e.evk2)) }})
 	}
